@@ -71,16 +71,19 @@ MUTANTS = [
      "        if 1 < g < n:\n          return [g, n // g]\n  return None",
      "        if 1 < g < n:\n          return [g, n // g]\n      return None\n  return None"),
     # C05
-    ('c05-drop-31', 'C05', L + 'rsa_single_checks.py',
+    # (dropping 31 is observationally equivalent: d0 = 1 finds patterns up to
+    # ~100 bits, as CheckFraction's docstring says)
+    ('c05-drop-127', 'C05', L + 'rsa_single_checks.py',
      'pattern_sizes += [31, 63, 127, 255, 511]',
-     'pattern_sizes += [63, 127, 255, 511]'),
+     'pattern_sizes += [31, 63, 255, 511]'),
     ('c05-maxpattern', 'C05', L + 'rsa_single_checks.py',
      '      max_pattern_size = n.bit_length() // 8\n',
      '      max_pattern_size = n.bit_length() // 32\n'),
     ('c05-psize-step', 'C05', L + 'rsa_single_checks.py',
      'for psize in range(3, wsize, 2):', 'for psize in range(3, wsize, 4):'),
-    ('c05-lhw-heuristic', 'C05', L + 'rsa_util.py',
-     '      v = rem_size + 5 * hw\n', '      v = rem_size + 2 * hw\n'),
+    ('c05-lhw-cutoff', 'C05', L + 'rsa_util.py',
+     'n: int, cutoff: int = 2500, maxsteps: int = 10**6',
+     'n: int, cutoff: int = 25, maxsteps: int = 10**6'),
     ('c05-pollard-gate', 'C05', L + 'rsa_util.py',
      'n: int, m: Optional[int] = None, gcd_bound: int = 2**60',
      'n: int, m: Optional[int] = None, gcd_bound: int = 2**90'),
@@ -140,9 +143,11 @@ MUTANTS = [
      'giant_steps = 2 + n // t', 'giant_steps = 1 + n // t'),
     ('c10-t', 'C10', L + 'ec_util.py',
      't = 2 * table_size - 1', 't = 2 * table_size + 1'),
+    # (deriving t from the cached table is correct; deriving only the number
+    # of giant steps from it is not)
     ('c10-stale-table', 'C10', L + 'ec_util.py',
-     "    if table_size > self._table_size:\n      # TODO(pedroysb): An improvement would be to generate from\n      # self._table_size up to table_size.\n      self._table = self.PointTable(base, table_size)\n      self._table_size = table_size\n    # Computes the size",
-     "    if table_size > self._table_size:\n      self._table = self.PointTable(base, table_size)\n      self._table_size = table_size\n    table_size = self._table_size\n    # Computes the size"),
+     'giant_steps = 2 + n // t',
+     'giant_steps = 2 + n // (2 * self._table_size - 1)'),
     ('c10-shifts', 'C10', L + 'ec_util.py',
      'for j in range(0, bits - 31, 8):', 'for j in range(0, bits - 39, 8):'),
     ('c10-dup-continue', 'C10', L + 'ec_util.py',
@@ -157,8 +162,10 @@ MUTANTS = [
     ('c11-mask-step', 'C11', L + 'ec_util.py',
      'mask = sum(1 << j for j in range(0, self.n.bit_length(), steps))',
      'mask = sum(1 << j for j in range(0, self.n.bit_length() - 1, steps))'),
+    # ((x, p - y) differs from (x, -y % p) only for y == 0: no such point on
+    # a prime-order curve)
     ('c11-negate', 'C11', L + 'ec_util.py',
-     '    return (x, -y % self.mod)', '    return (x, self.mod - y)'),
+     '    return (x, -y % self.mod)', '    return (x, -y)'),
     ('c11-jacobian-s', 'C11', L + 'ec_util.py',
      "      if s1 != s2:\n        return INFINITY_JACOBIAN",
      "      if s1 != s2 and s1 + s2 != mod:\n        return INFINITY_JACOBIAN"),
@@ -166,8 +173,9 @@ MUTANTS = [
      '"5ac635d8aa3a93e7b3ebbd55769886bc651d06b0cc53b0f63bce3c3e27d2604b"',
      '"5ac635d8aa3a93e7b3ebbd55769886bc651d06b0cc53b0f63bce3c3e27d2604c"'),
     # C12
-    ('c12-chisquare-k', 'C12', R + 'nist_suite.py',
-     '    k = len(count) - 1\n', '    k = len(count)\n'),
+    # (ChiSquare's default k is dead code: every caller passes k)
+    ('c12-longestrun-dof', 'C12', R + 'nist_suite.py',
+     '      k = v_upper - v_lower\n', '      k = v_upper - v_lower + 1\n'),
     ('c12-template-variance', 'C12', R + 'nist_suite.py',
      'variance = n * (1 / 2**m - (2 * m - 1) / 2**(2 * m))',
      'variance = n * (1 / 2**m - (2 * m + 1) / 2**(2 * m))'),
